@@ -181,6 +181,60 @@ theorem scripted_safe (offered : List Bytes) :
   good_name := fun _ _ _ => rfl
   step_ok := fun _ _ _ _ => ⟨rfl, fun _ => trivial⟩
 
+/-! ## the accepted hash is over the challenge that was sent and the cookie that is in the file -/
+
+/-- One exchange of a fresh DBUS_COOKIE_SHA1 instance: if its first step answers a challenge `msg` and its
+second step accepts, then `msg` is `<context> <id> <chal>`, the keyring file of the user's home ends (right after
+step one) with the entry `(id, now, cookie)`, and the accepted response is `<cc> <hexlify(sha1(chal:cc:cookie))>`
+for exactly that `chal` and `cookie`. -/
+theorem cookie_exchange_tied (w : RealWorld) (a1 a2 : Option Bytes) (msg : Bytes)
+    (h1 : (cookieStep w CookieSt.init a1).2.2 = .challenge msg)
+    (h2 : (cookieStep (cookieStep w CookieSt.init a1).1 (cookieStep w CookieSt.init a1).2.1 a2).2.2 = .accept) :
+    ∃ (id : Nat) (chal cookie cc resp : Bytes),
+      msg = w.cfg.ctx ++ 32 :: natToDec id ++ 32 :: chal ∧
+      (∃ old, lookupFile (cookieStep w CookieSt.init a1).1 (cookieStep w CookieSt.init a1).2.1.home =
+        some (old ++ [⟨id, w.cfg.now, cookie⟩])) ∧
+      a2 = some resp ∧ splitWs resp = [cc, cookieHash w.cfg.sha1 chal cc cookie] := by
+  -- step one: which branch produced the challenge
+  have hstep1 : ∃ w1 c1 id, cookieStep w CookieSt.init a1 =
+      (w1, c1, .challenge (w.cfg.ctx ++ 32 :: natToDec id ++ 32 :: c1.challenge)) ∧ w1.cfg = w.cfg ∧
+      (∃ old, lookupFile w1 c1.home = some (old ++ [⟨id, w.cfg.now, c1.cookie⟩])) := by
+    unfold cookieStep at h1 ⊢
+    cases a1 with
+    | none => simp at h1
+    | some arg =>
+      simp only [show CookieSt.init.stepNum = 0 from rfl, if_true] at h1 ⊢
+      unfold cookieStepOne at h1 ⊢
+      cases hr : resolveUser w.cfg arg with
+      | none => simp [hr] at h1
+      | some uname =>
+        simp only [hr] at h1 ⊢
+        cases hn : getpwnam w.cfg uname with
+        | none => simp [hn] at h1
+        | some e =>
+          simp only [hn] at h1 ⊢
+          cases hd : lookupDir w e.home with
+          | bad => simp [hd] at h1
+          | absent =>
+            simp only
+            obtain ⟨w1, cid, cookie, chal, e1, e2, e3⟩ := cookieChallenge_spec (setDir w e.home .good)
+              { CookieSt.init with stepNum := 0 + 1, username := some uname, home := e.home } e.home
+            rw [e1]
+            exact ⟨w1, _, cid, rfl, e2, _, e3⟩
+          | good =>
+            simp only
+            obtain ⟨w1, cid, cookie, chal, e1, e2, e3⟩ := cookieChallenge_spec w
+              { CookieSt.init with stepNum := 0 + 1, username := some uname, home := e.home } e.home
+            rw [e1]
+            exact ⟨w1, _, cid, rfl, e2, _, e3⟩
+  obtain ⟨w1, c1, id, hs1, hcfg, hfile⟩ := hstep1
+  rw [hs1] at h1 h2 ⊢
+  simp only at h1 h2 ⊢
+  obtain ⟨_, a, cc, hh, ha, hsp, hhash⟩ := cookieStep_accept w1 c1 a2 h2
+  injection h1 with h1
+  refine ⟨id, c1.challenge, c1.cookie, cc, a, h1.symm, hfile, ha, ?_⟩
+  rw [hsp, hhash, hcfg]
+
 /-! ## witness: the code before repair C06-04 -/
 
 /-- `_step_two` before C06-04: the cookie id is kept after the cookie was deleted. -/
@@ -192,9 +246,11 @@ def cookieStepTwoPre (w : RealWorld) (c : CookieSt) (response : Bytes) : RealWor
     | [cc, h] => if cookieHash w.cfg.sha1 c.challenge cc c.cookie = h then (w1, c, .accept) else (w1, c, .reject)
     | _ => (w1, c, .reject)
 
-private def w0 : RealWorld :=
+/-- a keyring file holding only the session's cookie (id 1) -/
+def w0 : RealWorld :=
   ⟨⟨none, [], 0, false, fun _ _ => [], fun _ => [1], []⟩, [], [([], [⟨1, 0, []⟩])], 0⟩
-private def c0 : CookieSt := ⟨1, some [], some 1, [], [], []⟩
+/-- the cookie mechanism after its challenge, cookie id 1 outstanding -/
+def c0 : CookieSt := ⟨1, some [], some 1, [], [], []⟩
 
 /-- With the pre-repair step two, a wrong response on a keyring file holding only the session's cookie leaves
 an instance whose `cancel()` (called by `reject()`) raises FileNotFoundError; the repaired step does not. -/
